@@ -16,7 +16,7 @@ Three parts, one verdict:
  3. extra(run) THE SWEEP (direction reversed, DESIGN.md 2.2 step 4): harness/c10.go enumerates by reflection
                every callable reachable from builtins and from each builtin type's attribute table, the Go-level
                operators/helpers and the source-level operator/subscript forms, and calls each with every
-               argument tuple of arity 0-2 (and arity 3 seeded / thorough: fuller) over a universe of 54
+               argument tuple of arity 0-2 (and arity 3 seeded / thorough: fuller) over a universe of 55
                representative values, each call under recover(), batches in child processes with a watchdog
                and RLIMIT_AS.  A Go panic / process abort is a VIOLATION with (callable, args) as replay,
                unless its ASSERTION SITE (innermost gpython function + panic kind, computed by the harness
@@ -252,7 +252,7 @@ def extra(run):
     run.cov["known_finding_cases"] = run.cov.get("known_finding_cases", 0) + sum(run.known_hit.values())
     run.cov["sweep"] = {
         "callables": len(names), "callables_by_kind": dict(collections.Counter(n[:2] for n in names)),
-        "universe_values": 54, "keyword_names": 33, "batches": len(lines), "calls": tot["n"], "skipped_giant_allocation_or_loop": tot["skip"],
+        "universe_values": 55, "keyword_names": 33, "batches": len(lines), "calls": tot["n"], "skipped_giant_allocation_or_loop": tot["skip"],
         "returned_value": tot["ok"], "raised": tot["err"], "panicked": tot["panic"], "past_validation": tot["nt"],
         "exception_classes": dict(classes.most_common()), "batches_by_kind_and_arity": dict(sorted(kinds.items())),
         "panic_sites": dict(collections.Counter(s for s, _, _, _ in panics)), "aborted_batches": len(aborted),
